@@ -137,6 +137,27 @@ impl FileUploadSession {
     ///
     /// The caller is responsible for memory usage management, the parameter "buffer_size"
     /// indicates the maximum number of Vec<u8> in the internal buffer.
+    /// Verification hook: a session over a caller-supplied client (fault injection, observation of puts / shards).
+    #[cfg(xet_verif)]
+    pub async fn new_with_client(
+        config: Arc<TranslatorConfig>,
+        threadpool: Arc<ThreadPool>,
+        client: Arc<dyn Client + Send + Sync>,
+    ) -> Result<Arc<FileUploadSession>> {
+        let shard_interface = SessionShardInterface::new(config.clone(), client.clone(), false).await?;
+        Ok(Arc::new(Self {
+            shard_interface,
+            client,
+            upload_progress_updater: None,
+            threadpool,
+            repo_id: None,
+            config,
+            current_session_data: Mutex::new(DataAggregator::default()),
+            deduplication_metrics: Mutex::new(DeduplicationMetrics::default()),
+            xorb_upload_tasks: Mutex::new(JoinSet::new()),
+        }))
+    }
+
     pub fn start_clean(self: &Arc<Self>, file_name: String) -> SingleFileCleaner {
         SingleFileCleaner::new(file_name, self.clone())
     }
@@ -201,6 +222,15 @@ impl FileUploadSession {
                 || current_session_data.num_chunks() + file_data.num_chunks() > *MAX_XORB_CHUNKS
             {
                 // Cut the larger one as a xorb, uploading it and registering the files.
+                #[cfg(xet_verif)]
+                utils::verif::emit("UpCompletion", || {
+                    format!(
+                        "\"branch\":\"{}\",\"agg_chunks\":{},\"file_chunks\":{}",
+                        if current_session_data.num_bytes() > file_data.num_bytes() { "swap" } else { "cut" },
+                        current_session_data.num_chunks(),
+                        file_data.num_chunks()
+                    )
+                });
                 if current_session_data.num_bytes() > file_data.num_bytes() {
                     swap(&mut *current_session_data, &mut file_data);
                 }
@@ -213,6 +243,14 @@ impl FileUploadSession {
 
                 self.process_aggregated_data_as_xorb(file_data).await?;
             } else {
+                #[cfg(xet_verif)]
+                utils::verif::emit("UpCompletion", || {
+                    format!(
+                        "\"branch\":\"merge\",\"agg_chunks\":{},\"file_chunks\":{}",
+                        current_session_data.num_chunks(),
+                        file_data.num_chunks()
+                    )
+                });
                 current_session_data.merge_in(file_data);
             }
         }
